@@ -36,7 +36,10 @@ type c16Conn struct {
 	// read loop holds a request nobody has taken yet
 	Pipelined bool `json:"next_request_already_sent,omitempty"`
 	// Invalid (phase invalid-message): what the client sent instead of a request before going silent (it reads whatever
-	// the server answers and keeps its side of the connection open): response-message | other-structure | oversize-header
+	// the server answers and keeps its side of the connection open): response-message | other-structure | oversize-header.
+	// Phase hook-fails with Invalid set: the connect hook takes 10 ms to refuse the client, which has sent that already (a
+	// port scanner, an HTTP client on the KMIP port). Phase handler with Pipelined and Invalid set: what the client has
+	// sent behind its request is that, not a second request.
 	Invalid string `json:"invalid_message,omitempty"`
 }
 type c16Case struct {
@@ -57,6 +60,18 @@ type c16Case struct {
 }
 
 type ctxConnID struct{}
+
+// invalidBytes: what a client sends that is not a request message.
+func invalidBytes(kind string) []byte {
+	switch kind {
+	case "response-message":
+		rm := kmip.ResponseMessage{Header: kmip.ResponseHeader{ProtocolVersion: kmip.V1_4, BatchCount: 1}, BatchItem: []kmip.ResponseBatchItem{{Operation: kmip.OperationActivate}}}
+		return ttlvMarshal(&rm)
+	case "oversize-header":
+		return []byte{0x42, 0x00, 0x78, 0x01, 0x00, 0x20, 0x00, 0x00, 1, 2, 3, 4, 5, 6, 7, 8}
+	}
+	return []byte{0x42, 0x00, 0x69, 0x01, 0x00, 0x00, 0x00, 0x10, 0x42, 0x00, 0x6A, 0x02, 0, 0, 0, 4, 0, 0, 0, 1, 0, 0, 0, 0}
+}
 
 type c16Log struct {
 	mu               sync.Mutex
@@ -100,6 +115,7 @@ func c16Bubble(c c16Case) c08Result {
 		cancelAt: map[string]time.Time{}, started: map[string]time.Time{}, ended: map[string]time.Time{}}
 	// which accepted connection fails its connect hook: by accept order
 	failHook := map[int]bool{}
+	slowHook := map[int]bool{}
 	order := 0
 	for i, cc := range c.Conns {
 		if cc.Phase == "closed" || cc.Phase == "connecting" || cc.Phase == "accepted-held" {
@@ -161,7 +177,7 @@ func c16Bubble(c c16Case) c08Result {
 		}
 		id := order
 		order++
-		bad := failHook[id]
+		bad, slow := failHook[id], slowHook[id]
 		if bad {
 			lg.failed[id] = true
 		} else {
@@ -169,6 +185,9 @@ func c16Bubble(c c16Case) c08Result {
 		}
 		lg.mu.Unlock()
 		if bad {
+			if slow {
+				time.Sleep(10 * time.Millisecond)
+			}
 			return ctx, errors.New("connect hook refuses")
 		}
 		return context.WithValue(ctx, ctxConnID{}, id), nil
@@ -242,6 +261,7 @@ func c16Bubble(c c16Case) c08Result {
 		}
 		if cc.Phase == "hook-fails" {
 			failHook[accepted] = true
+			slowHook[accepted] = cc.Invalid != ""
 		}
 		conn, err := ln.Dial()
 		if err != nil {
@@ -274,6 +294,9 @@ func c16Bubble(c c16Case) c08Result {
 			if cc.Pipelined {
 				synctest.Wait() // the first request is in its handler
 				b2, _ := mkReq(0, true)
+				if cc.Invalid != "" {
+					b2 = invalidBytes(cc.Invalid)
+				}
 				_, _ = w.Write(b2)
 			}
 		case "stalled-response":
@@ -291,17 +314,12 @@ func c16Bubble(c c16Case) c08Result {
 			cl.p.mu.Unlock()
 			conn.Close()
 		case "invalid-message":
-			var b []byte
-			switch cc.Invalid {
-			case "response-message":
-				rm := kmip.ResponseMessage{Header: kmip.ResponseHeader{ProtocolVersion: kmip.V1_4, BatchCount: 1}, BatchItem: []kmip.ResponseBatchItem{{Operation: kmip.OperationActivate}}}
-				b = ttlvMarshal(&rm)
-			case "oversize-header":
-				b = []byte{0x42, 0x00, 0x78, 0x01, 0x00, 0x20, 0x00, 0x00, 1, 2, 3, 4, 5, 6, 7, 8}
-			default:
-				b = []byte{0x42, 0x00, 0x69, 0x01, 0x00, 0x00, 0x00, 0x10, 0x42, 0x00, 0x6A, 0x02, 0, 0, 0, 4, 0, 0, 0, 1, 0, 0, 0, 0}
+			_, _ = w.Write(invalidBytes(cc.Invalid))
+		case "hook-fails":
+			if cc.Invalid != "" {
+				// the connect hook is still making up its mind
+				_, _ = w.Write(invalidBytes(cc.Invalid))
 			}
-			_, _ = w.Write(b)
 		}
 		synctest.Wait()
 	}
@@ -565,7 +583,7 @@ func TestC16Shutdown(t *testing.T) {
 			} else {
 				other = true
 			}
-			if cc.Phase == "invalid-message" {
+			if cc.Phase == "invalid-message" || (cc.Phase == "hook-fails" || cc.Pipelined) && rapid.Bool().Draw(rt, "sends-invalid") {
 				cc.Invalid = rapid.SampledFrom([]string{"response-message", "other-structure", "oversize-header"}).Draw(rt, "invalid")
 			}
 			if rapid.IntRange(0, 2).Draw(rt, "acts") == 0 && cc.Phase != "closed" && cc.Phase != "connecting" && cc.Phase != "accepted-held" && cc.Phase != "tls-silent" {
